@@ -62,9 +62,13 @@ func (solution *Solution) reactionInNode(nodeId contracts.StrID) *math.Torsor {
 
 	for _, element := range solution.Elements {
 		if element.StartNodeID() == nodeId {
-			reaction = reaction.Plus(element.GlobalStartTorsor())
+			reaction = reaction.
+				Plus(element.GlobalStartTorsor()).
+				Minus(element.globalExternalLoadAt(0))
 		} else if element.EndNodeID() == nodeId {
-			reaction = reaction.Plus(element.GlobalEndTorsor())
+			reaction = reaction.
+				Plus(element.GlobalEndTorsor()).
+				Minus(element.globalExternalLoadAt(element.NodesCount() - 1))
 		}
 	}
 
